@@ -142,3 +142,14 @@ Theorem bzip2_reader_reachable_has_six_decoders : forall st,
 Proof. exact reachable_six. Qed.
 Print Assumptions bzip2_reader_reachable_has_six_decoders.
 End BzReset.
+
+From V Require Meta.ReaderImpl Meta.ReaderImplSim Meta.ReaderImplThms.
+Module MetaReaderImplF.
+Import Base.Prelude Base.Prog Flate.Impl Flate.ImplRel Meta.Model Meta.Stream Meta.ReaderImpl Meta.ReaderImplSim Meta.ReaderImplThms.
+(* meta.Reader.Reset at implementation level: from ANY state Reset gives the state of NewReader *)
+Theorem meta_reader_reset_is_new : forall st data bf fills reads,
+  mr_reset st data bf fills reads = mr_new data bf fills reads /\
+  forall ops, mr_run (mr_reset st data bf fills reads) ops = mr_run (mr_new data bf fills reads) ops.
+Proof. exact meta_reader_reset_as_new. Qed.
+Print Assumptions meta_reader_reset_is_new.
+End MetaReaderImplF.
